@@ -357,6 +357,13 @@ def _lin(t: Term, depth: Term):
 def _zeros(t: Term, depth: Term):
     """`[0] * n`, `(0,) * n`, `n * [0]`, `[0 for _ in range(n)]`: n zeros, n linear in depth."""
     t = T.strip(t)
+    if t[0] == "idx" and T.strip(t[2])[0] == "slice":
+        # zeros[a:] of n zeros: n - a zeros
+        sl = T.strip(t[2])
+        z = _zeros(t[1], depth)
+        if z is not None and sl[1][0] == "const" and isinstance(sl[1][1], int) and sl[1][1] >= 0 and sl[2] == T.NONE and sl[3] == T.NONE:
+            return (z[0], z[1] - sl[1][1])
+        return None
     if t[0] == "op" and t[1] == "*" and len(t) == 4:
         for seq, n in ((t[2], t[3]), (t[3], t[2])):
             seq = T.strip(seq)
@@ -433,10 +440,22 @@ def _init_state(ctx: Ctx, c: Collector) -> None:
     if not (len(cs) == 1 and not cs[0].guards and cs[0].term[2] == T.NONE):
         pr.append("current_step does not start as None (no step in flight)")
     # the first demanded step
-    ns = stores.get("next_steps", [])
+    class _Case:            # a store, or one branch of a stored conditional expression
+        def __init__(self, guards, value):
+            self.guards, self.term = tuple(guards), ("store", None, value)
+    ns0 = stores.get("next_steps", [])
+    ns = []
+    for e in ns0:
+        v = T.strip(e.term[2])
+        if v[0] in ("ifexp", "phi") and len(v) == 4:
+            ns.append(_Case(tuple(e.guards) + (("g", v[1], True),), v[2]))
+            ns.append(_Case(tuple(e.guards) + (("g", v[1], False),), v[3]))
+        else:
+            ns.append(_Case(e.guards, e.term[2]))
     typ_leaves: Dict[Term, str] = {}
     for e in ns:
-        for g in e.guards:
+        elem_guards = [g for el in elems_of(T.strip(e.term[2])) for g in el[2]]       # `[x] if c else []` is the list of x under c
+        for g in list(e.guards) + elem_guards:
             for x in T.subterms((T.guard_term(g),)):
                 if x[0] == "cmp" and x[1] in ("==", "!=") and any(y[0] == "const" and isinstance(y[1], str) for y in (x[2], x[3])):
                     typ_leaves[boolfn.canon_leaf(x)[0]] = [y for y in (x[2], x[3]) if y[0] == "const"][0][1]
@@ -457,7 +476,8 @@ def _init_state(ctx: Ctx, c: Collector) -> None:
                     pr.append(f"{ty} simulators get no initial schedule")
                     continue
                 v = T.strip(live[-1].term[2])
-                els = elems_of(v)
+                asg = {l: (k == ty) for l, k in typ_leaves.items()}
+                els = tuple(("elem", x[1], (), x[3]) for x in elems_of(v) if boolfn.guards_hold_leaves(x[2], asg))
                 if v[0] != "bag" or any(x[2] or x[3] for x in els):
                     pr.append(f"the initial schedule {T.show(v)[:60]} is not a plain list")
                 elif is_ev and els:
